@@ -6,6 +6,7 @@
 (3) PDFFiller._read_form_fields re-types every entry with the definition of the same name;
 (4) habutax.solve writes tax_year = args.year; fill_pdfs reads it and interprets the solution with that year's forms.
 """
+import configparser
 import os
 import time
 
@@ -275,7 +276,132 @@ def main_year():
         if o.note == 'C14' and 'KeyboardInterrupt' in o.id:
             o.id = o.id.replace('MAIN/solve/KeyboardInterrupt/C14/', 'C14/main/')
             obs.append(o)
+    # the stamp names the year whose forms solved the return: a native run of the real habutax.solve on an input file that carries a
+    # [habutax] section of its own (refutes when the main unit is outside the subset, and cross-checks it otherwise)
+    rep = native_solve_year()
+    oid = 'C14/main/the-stamped-year-is-the-year-of-the-forms-that-solved'
+    if rep.get('reproduced'):
+        obs.append(Ob(id=oid, status=oblig.REFUTED, backend='native', bounded=True, cases=len(rep.get('runs', [])), function='__init__.py:solve',
+                      clause='NOT: the solution is stamped with the tax year of the catalogue that solved it', witness=rep, replay=rep))
+    else:
+        obs.append(Ob(id=oid, backend='native', bounded=True, cases=len(rep.get('runs', [])), function='__init__.py:solve',
+                      clause='the solution is stamped with the tax year of the catalogue handed to the solver (also when the input file has a [habutax] section)',
+                      note='bounded stand-in next to the symbolic main unit: every year x input files with and without a [habutax] tax_year of another year'))
     return obs
+
+
+def native_solve_year():
+    import argparse
+    import contextlib
+    import io
+    import tempfile
+    import habutax
+    from habutax import forms, solver
+    runs, bad = [], False
+    orig = solver.Solver
+    try:
+        for year in sorted(forms.available_forms):
+            for pinned in (None,) + tuple(y for y in sorted(forms.available_forms) if y != year):
+                used = {}
+
+                class Rec(orig):
+                    def __init__(self, input_store, form_list, prompt=None):
+                        used['forms'] = form_list
+                        orig.__init__(self, input_store, form_list, prompt=prompt)
+                solver.Solver = Rec
+                with tempfile.TemporaryDirectory() as d:
+                    inp, sol = os.path.join(d, 'in.ini'), os.path.join(d, 'out.ini')
+                    with open(inp, 'w') as f:
+                        f.write('[w-2:0]\nbox_1 = 1\n' + (f'[habutax]\ntax_year = {pinned}\n' if pinned else ''))
+                    args = argparse.Namespace(input_file=inp, solution=sol, year=year, forms=['w-2:0'], prompt_missing=False, writeback_input=False)
+                    try:
+                        with contextlib.redirect_stdout(io.StringIO()):
+                            habutax.solve(args)
+                        c = configparser.ConfigParser()
+                        c.read(sol)
+                        stamped = c.getint('habutax', 'tax_year')
+                        solved_with = [y for y, v in forms.available_forms.items() if v is used.get('forms')]
+                        ok = solved_with == [stamped]
+                        runs.append({'--year': year, 'input_file_pins': pinned, 'stamped': stamped, 'solved_with_forms_of': solved_with})
+                    except BaseException as ex:
+                        ok = True          # an abort writes no solution: nothing to read back
+                        runs.append({'--year': year, 'input_file_pins': pinned, 'ended': f'{type(ex).__name__}: {str(ex)[:60]}'})
+                    bad = bad or not ok
+    finally:
+        solver.Solver = orig
+    return {'reproduced': bad, 'kind': 'solve-year', 'runs': runs}
+
+
+def writer_dialect():
+    """(positional, keyword) arguments of the ConfigParser(...) call in the real ValueStore.to_config, constants evaluated."""
+    import ast
+    from habutax import values
+    node = extract.func_ast(values.ValueStore.to_config)
+    for n in ast.walk(node):
+        if isinstance(n, ast.Call) and isinstance(n.func, ast.Attribute) and n.func.attr == 'ConfigParser':
+            try:
+                return ([ast.literal_eval(a) for a in n.args], {k.arg: ast.literal_eval(k.value) for k in n.keywords})
+            except Exception:
+                return None
+    return None
+
+
+def native_text_roundtrip():
+    """Concretisation / bounded stand-in: texts with per-cent signs, quotes, brackets through the real ValueStore.to_config -> write ->
+    the parser fill_pdfs builds -> PDFFiller._read_form_fields."""
+    import argparse
+    import tempfile
+    import habutax
+    from habutax import fields as F, pdf_filler, values
+    texts = ['plain', 'A%%B', '100% sales', '%(first)s', '50%', "it's", '"quoted"', '[x]', 'a = b', 'a; b # c', 'tab\there']
+
+    class Fm(object):
+        form_name = 'toy'
+
+        def __init__(self, instance=None):
+            self._f = [F.StringField('first', lambda s, i, v: ''), F.StringField('t', lambda s, i, v: '')]
+            for f in self._f:
+                f.__form_init__(self)
+
+        def name(self):
+            return 'toy'
+
+        def fields(self):
+            return self._f
+    runs, bad = [], False
+    orig = pdf_filler.PDFFiller
+    for t in texts:
+        got = {}
+        try:
+            fm = Fm()
+            vs = values.ValueStore()
+            vs['toy.first'] = 'Pat'
+            vs['toy.t'] = t
+            cfg = vs.to_config({f.name(): f for f in fm.fields()})
+            cfg['habutax'] = {'tax_year': 2022, 'version': 'x'}
+
+            class Rec(orig):
+                def __init__(self, solution, available, out, flatten=True):
+                    orig.__init__(self, solution, [Fm], out, flatten)
+
+                def fill(self):
+                    self._add_form('toy')
+                    got['v'] = self._values['toy.t']
+            pdf_filler.PDFFiller = Rec
+            with tempfile.TemporaryDirectory() as d:
+                path = os.path.join(d, 's.ini')
+                with open(path, 'w') as f:
+                    cfg.write(f)
+                habutax.fill_pdfs(argparse.Namespace(solution=path, output=os.path.join(d, 'o.pdf'), flatten=True))
+            ok = got.get('v') == t.strip()
+            runs.append({'solved': t, 'read_back': got.get('v')})
+        except BaseException as ex:
+            ok = False
+            runs.append({'solved': t, 'raised': f'{type(ex).__name__}: {str(ex)[:80]}'})
+        finally:
+            pdf_filler.PDFFiller = orig
+        bad = bad or not ok
+    return {'reproduced': bad, 'kind': 'text-roundtrip', 'runs': runs}
 
 
 def fill_pdfs_unit():
@@ -349,7 +475,13 @@ def fill_pdfs_unit():
         yr = [y for y in forms.available_forms if smt.prove(hyp, Y == y)[0] == 'discharged']
         ok = a is not None and len(yr) == 1 and a[1] is forms.available_forms[yr[0]] and gi == ['habutax', 'tax_year'] and it.ghost.get('filled') \
             and it.ghost.get('removed') == 'habutax'
-        res.append(('solution-is-parsed-with-the-dialect-it-was-written-in', it.ghost.get('parser_options') == ([], {}), f'ConfigParser options {it.ghost.get("parser_options")}'))
+        wopts = writer_dialect()
+        ropts = it.ghost.get('parser_options')
+        same = ropts is not None and wopts is not None and list(ropts[0]) == list(wopts[0]) and {k: repr(v) for k, v in ropts[1].items()} == {k: repr(v) for k, v in wopts[1].items()}
+        res.append(('solution-is-parsed-with-the-dialect-it-was-written-in', same, f'reader ConfigParser{ropts} vs writer (ValueStore.to_config) ConfigParser{wopts}'))
+        # text is transported as it is: with interpolation on, '%%' reads back as '%' and '%(name)s' as another entry's value
+        raw = ropts is not None and ropts[0] == [] and set(ropts[1]) == {'interpolation'} and ropts[1]['interpolation'] is None
+        res.append(('the-solution-dialect-interpolates-nothing', raw and same, f'reader ConfigParser{ropts}, writer ConfigParser{wopts}'))
         years.update(yr)
         res.append(('solution-interpreted-with-the-forms-of-the-year-it-carries', ok, f'year {yr} args {a}'))
     res.append(('all-catalogued-years-reachable', years == set(forms.available_forms), str(years)))
@@ -362,7 +494,7 @@ def fill_pdfs_unit():
             obs.append(Ob(id=oid, backend='symexec+z3', function=fid, clause=label.replace('-', ' '), vc=f'{len(rs)} path(s)'))
         else:
             obs.append(Ob(id=oid, status=oblig.REFUTED, backend='symexec+z3', function=fid, clause='NOT: ' + label, solver_output=[r[2] for r in rs if not r[1]][0][:300],
-                          witness={'detail': [r[2] for r in rs if not r[1]][0][:300]}, replay=native_fill_pdfs()))
+                          witness={'detail': [r[2] for r in rs if not r[1]][0][:300]}, replay=native_text_roundtrip() if 'dialect' in label else native_fill_pdfs()))
     return obs
 
 
